@@ -16,7 +16,7 @@
 (*   ctx   : node id of core.currentContextDirective (0 = root context)    *)
 (*   res   : "ok" | "ctxerr" | "noctx" | "unclosed"                        *)
 (***************************************************************************)
-EXTENDS Lang
+EXTENDS Lang, TLC
 
 EmptyTree == [nodes |-> <<>>, ctx |-> 0, res |-> "ok", errTok |-> 0]
 
@@ -27,7 +27,9 @@ HasPathParam(d) == d.k \in Methods /\ d.p # <<>>
 Admits(c, d) == d.k \in Allowed(c.k) /\ ~(c.k = "URL" /\ HasPathParam(d))
 
 Attach(T, c, d, i) ==
-  LET n == [k |-> d.k, p |-> d.p, a |-> d.a, e |-> d.e, b |-> d.b, c |-> d.c, parent |-> c, tok |-> i]
+  \* the node keeps every field of the token (kind, parameters, annotation, explicit flag,
+  \* body, code, and -- for multi-file projects -- file and include trace)
+  LET n == [parent |-> c, tok |-> i] @@ d
   IN [T EXCEPT !.nodes = Append(@, n), !.ctx = Len(T.nodes) + 1]
 
 Fail(T, r, i) == [T EXCEPT !.res = r, !.errTok = i]
